@@ -74,13 +74,25 @@ def instance_matrix(b, inst, sidx, tidx):
 
 
 def sel_row(b, spec, g):
+    """Option index of every choice whose originating node exists, read from the origin -> option edges (edges that
+    are plain derivation edges of the design space are discounted; parallel edges are counted)."""
     present = set(b.node_ids(g))
+    derives = [tuple(e) for e in spec['derives']]
     row = []
-    for c in spec['sel']:
+    for ci, c in enumerate(spec['sel']):
         if c['o'] not in present:
             row.append(None)
             continue
-        chosen = [k for k, op in enumerate(c['opts']) if g.graph.has_edge(b.nodes[c['o']], b.nodes[op])]
+        base = {}
+        for (u, v) in derives:
+            if u == c['o']:
+                base[v] = base.get(v, 0) + 1
+        # edges added by other choices on the same originating node cannot be told apart: rely on counts
+        chosen = []
+        for k, op in enumerate(c['opts']):
+            n_e = g.graph.number_of_edges(b.nodes[c['o']], b.nodes[op]) if b.nodes[op] in g.graph.nodes else 0
+            if n_e > base.get(op, 0):
+                chosen.append(k)
         row.append(chosen[0] if len(chosen) == 1 else -9)
     return tuple(row)
 
